@@ -114,7 +114,7 @@ CHECKS = {
        "generator's Fortran ground truth against textDocument/definition on generated multi-file workspaces.",
   note="Partial. Trusted: Coq kernel, vm_compute, generator ground truth. Fragment: variables, modules, a program with a contained procedure; no #GEN_INT, "
        "INCLUDE, IMPORT, submodules, % chains. Known findings: C05:rename-lost-diamond, C05:private-reexport.",
-  technique="Rocq proof over a transcription of the resolution functions (accessibility invariant for all programs; fragment correctness; refutation witnesses) + differential with generated ground truth",
+  technique="Rocq proof over a transcription of the resolution functions (accessibility invariant for all programs; fragment correctness; refutation witnesses) + differential with generated ground truth + annotated catalogue (%-chains through EXTENDS, submodules, type-bound) re-queried after saves",
   design="4/C05"),
  "C06": dict(
   text="Coq theorems (C06/Props.v): for every line and every name of identifier characters the occurrence scan finds (a,b) iff [a,b) is a whole "
@@ -193,7 +193,8 @@ CHECKS = {
   text="Coq theorems (C12/Props.v, over a transcription of get_candidates and the C05 resolution model): the prefix filter is exact (offered iff candidate "
        "and begins with the prefix, case-insensitively); for every program a candidate that comes through USE is a public child of its module (PRIVATE "
        "respected) and, under an ONLY list, one of the listed names; every name offered through a rename-free USE dictionary resolves under find_in_scope's "
-       "USE search (completion never offers what go-to-definition cannot follow). The transcription is compared with textDocument/completion on generated "
+       "USE search and, conversely, every name that search resolves to an entity is offered from that module (for rename-free dictionaries completion "
+       "through USE and go-to-definition agree exactly). The transcription is compared with textDocument/completion on generated "
        "workspaces; the property oracle is the generator's ground truth of accessibility; `%` (inherited members), USE, ONLY: and CALL contexts are checked "
        "on an annotated catalogue.",
   note="Partial. Trusted: Coq kernel, vm_compute, C05 generator and resolution model, catalogue. Context classification is catalogue-only.",
